@@ -37,7 +37,7 @@ def main(tier, seed):
     chk = Check("C06", tier, seed)
     chk.assumptions = list(ASSUMPTIONS)
     c06.obligations(chk)
-    if tier == "thorough":
+    if tier in ("quick", "thorough"):      # the replay on the real code takes < 1 s: run it in both tiers (never counted as proved)
         fails, n, d = c06_concrete.search(stop_at=3)
         chk.bounded.append({"name": "bounded cross-check: marshal over the type pool, subclass instances and Literal non-members",
                             "evaluations": n, "distinct_nontrivial": d, "failures": len(fails),
